@@ -263,6 +263,10 @@ example : (relayProg 2).run [.ok, .ok, .ok, .ok, .ok, .ok, .ok, .fail] {}
 example : (relayProg 2).run [.ok, .ok, .ok, .ok, .ok, .ok, .fail] {}
     = some { slots := [.released, .released, .released], misuse := false } := by decide
 example : (srflxProg).run [.ok, .ok, .ok, .ok, .dup] {} = some { slots := [.dupClosed], misuse := false } := by decide
+/-- srflx-mapped unit with two externals: the first maps to a disabled network type (C18-G6 fix: its socket
+is released, the loop continues), the second is listened for, passes and is started -/
+example : (srflxMappedProg 2).run [.ok, .ok, .ok, .ok, .fail, .ok, .ok, .ok, .ok, .ok] {}
+    = some { slots := [.released, .owned 1], misuse := false } := by decide
 /-- the monitor does reject an observation: a socket of an ended generation with nothing in flight -/
 example : (IceSpec.C09.check {} "stunreply" "ok"
     { gen := 1, led := [((.sock, some 0), 1)], opens := 1, closes := 0 }).1
